@@ -143,3 +143,38 @@ def fallback_chain(prog, sc, node, depth=0):
                 if len(rns) == 1:
                     return ["and_then:" + origin_desc(strip(csc._rw(rns[0][1])))]
     return [_short(origin_desc(n))]
+
+
+def updates(root):
+    """every write to a named place (field of a local, or a named local) in a function and its closures:
+    [dict(dest, op, term, scope, bb, line)] ; op is '+=' when the right-hand side is dest + term, '/=' for dest / term, else '='"""
+    out = []
+    for sc in root.all_scopes():
+        body = sc.body
+        for b, i, s in body.statements():
+            if s["s"] != "assign":
+                continue
+            p = s["p"]
+            if isinstance(p, int):
+                if p not in body.names:
+                    continue
+                dest_node = ("var", p, body.names[p])
+                dest = body.names[p]
+            else:
+                dest_node = strip(sc.place(p))
+                dest = leaf_name(dest_node)
+                if dest is None or dest.startswith("_"):
+                    continue
+            rhs = strip(sc.rvalue(s["rv"]))
+            op = "="
+            term = rhs
+            if rhs[0] == "bin" and rhs[1] in ("Add", "Div", "Sub", "Mul"):
+                a, bnode = strip(rhs[2]), strip(rhs[3])
+                if leaf_name(a) == dest:
+                    op = {"Add": "+=", "Div": "/=", "Sub": "-=", "Mul": "*="}[rhs[1]]
+                    term = bnode
+                elif leaf_name(bnode) == dest and rhs[1] in ("Add", "Mul"):
+                    op = {"Add": "+=", "Mul": "*="}[rhs[1]]
+                    term = a
+            out.append({"dest": dest, "op": op, "term": term, "scope": sc, "bb": b, "line": s.get("ln")})
+    return out
